@@ -95,7 +95,8 @@ def fdae_solver(fdae: nFDAE,
         u1 = sol.y
         stats.ndecomp = stats.ndecomp + sol.stats.ndecomp
         stats.nfeval = stats.nfeval + stats.nfeval
-        if stats.nstep >= 100:
+        if not sol.stats.succeed:
+            # the step is not accepted: u1 does not satisfy the step equations
             print(f"FDAE solver broke at time={tt} due to non-convergence")
             break
 
@@ -115,6 +116,7 @@ def fdae_solver(fdae: nFDAE,
     u = u[0:nt + 1]
     T = T[0:nt + 1]
     stats.nstep = nt
+    stats.succeed = done
     if opt.pbar:
         bar.close()
     return daesol(T, u, stats=stats)
